@@ -275,7 +275,20 @@ func judge(s spec, e *vsched.Exec, o *obs) vx.Verdict {
 		key := "{" + e.BlockedKey() + "}"
 		for _, b := range e.BlockedSites() {
 			if strings.Contains(b, "chan.send@mr.(*onceChan).write") {
-				key = ":panic-write-unread" // a recovered panic is being handed to a caller that no longer listens
+				// a recovered panic is being handed to a caller that no longer listens; WHICH panic
+				// is part of the cause key, so a new source of panics is a new class
+				what := "other"
+				switch {
+				case strings.Contains(b, "{generator}") || strings.Contains(b, "{mapper}") || strings.Contains(b, "{reducer}"):
+					what = "user-panic"
+				case strings.Contains(b, "send-on-closed-channel"):
+					what = "send-on-closed-channel"
+				default:
+					if i := strings.LastIndex(b, "("); i >= 0 {
+						what = strings.Trim(b[i:], "()")
+					}
+				}
+				key = ":panic-write-unread:" + what
 			}
 		}
 		return vx.Verdict{Class: kind + key, Msg: what + strings.Join(e.Blocked(), " "), Sig: kind}
@@ -512,6 +525,11 @@ func main() {
 		{Entry: "MapReduce", N: 2, W: 2, Fan: 1, GenPanic: -1, MapFault: "cancel-err", MapAt: 0, Reducer: "write-early"},
 		{Entry: "MapReduce", N: 2, W: 1, Fan: 1, GenPanic: -1, MapFault: "cancel-err", MapAt: 1, Reducer: "panic"},
 		{Entry: "MapReduce", N: 2, W: 2, Fan: 1, GenPanic: 1, MapFault: "cancel-nil", MapAt: 0},
+		{Entry: "MapReduce", N: 2, W: 2, Fan: 1, GenPanic: -1, MapFault: "cancel-err", MapAt: 0, Ctx: "timeout"},
+		{Entry: "MapReduce", N: 2, W: 1, Fan: 1, GenPanic: -1, MapFault: "cancel-err", MapAt: 1, Ctx: "timeout"},
+		{Entry: "MapReduce", N: 2, W: 2, Fan: 1, GenPanic: -1, MapFault: "cancel-nil", MapAt: 1, Ctx: "timeout"},
+		{Entry: "MapReduce", N: 2, W: 2, Fan: 1, GenPanic: -1, Reducer: "cancel", Ctx: "timeout"},
+		{Entry: "MapReduce", N: 1, W: 1, Fan: 1, GenPanic: -1, MapFault: "cancel-err", MapAt: 0, Ctx: "cancel"},
 	}
 	if cfg.Thorough() {
 		pairs = append(pairs,
